@@ -32,7 +32,7 @@ import (
 //	transaction body in those roots; only the "not marked" edge may reach them.
 func init() {
 	register(&Rule{ID: "ORD-30", Title: "a committed state change that cannot be completed in memory stops the writer (durable and in-memory state never diverge silently)",
-		Props: []string{"C10", "C04", "C01"}, Floor: 3, Run: runORD30})
+		Props: []string{"C10", "C04", "C01", "C13"}, Floor: 3, Run: runORD30})
 }
 
 func runORD30(p *Prog, r *RuleRun) {
